@@ -195,7 +195,10 @@ class Check(PropertyCheck):
                   "pairing_is_partial_bijection (equal directionality), pairing_is_stable, signals_reach_only_pair and "
                   "stream_commands_address_registered_streams, and their whole-history forms by induction over the event list: "
                   "pairing_is_stable_forever, signals_reach_only_pair_forever (the commands an event produced are addressed to "
-                  "the pair that is registered under the event's id in EVERY later state), history_addresses_registered_streams; "
+                  "the pair that is registered under the event's id in EVERY later state), history_addresses_registered_streams, and "
+                  "no_data_or_reset_after_fin_or_reset (in the complete command history of any event sequence nothing is sent on a "
+                  "(connection, stream id) after the FIN or reset mitmproxy sent on it - the CAN_WRITE guard of event_to_child, "
+                  "carried through close_stream_layer, the reset preservation and the connection-close fan-out); "
                   "proved by an invariant of the stream table preserved by every step (no bound on streams or events). The executable model (child = C29 TCP/UDP relay model) is tied to the "
                   "real RawQuicLayer(force_raw=True) by step-wise comparison of all commands, the (client id, server id) table "
                   "and next_stream_id.")
@@ -205,8 +208,6 @@ class Check(PropertyCheck):
                   "modelled: RawQuicLayer's own OpenConnection on Start (server taken as connected), force_raw=False (NextLayer "
                   "protocol detection), aioquic itself. Re-entrant ConnectionClosed into a child whose generator is suspended is "
                   "delivered after the child's step in the model (indistinguishable for TCPLayer, which is already `done`). "
-                  "Not proved (only exercised by the tie): that no SendQuicStreamData/ResetQuicStream follows a FIN/reset on the same "
-                  "(connection, stream id) - in the code this is the CAN_WRITE guard of event_to_child. "
                   "Oracle excuses (each with a doctored counter-example in known_selftest()): AssertionError is accepted only for (a) a "
                   "stream event on an id unknown on that side whose initiator bit belongs to the other peer (registration guard) and "
                   "(b) QuicConnectionClosed from the server while some registered stream has no server side yet; events are allowed "
